@@ -217,6 +217,119 @@ def accessor_scaling(ctx):
                 break
 
 
+def history_windows(ctx):
+    """states_in() / integral() over a window that starts before t0: the knots taken from the history are the
+    stored physical values whatever the nominal, and the integral is the same for every nominal"""
+    import random
+    import casadi as ca
+    import numpy as np
+    from .. import problems
+    r2 = random.Random(808)
+    done = 0
+    while done < ctx.n(8, 120):
+        s = tr.gen_spec(r2, {"history": False, "own_grid": False, "nominals": False})
+        coll = s["states"] + s["algebraics"] + s["controls"]
+        if not coll:
+            continue
+        done += 1
+        v = r2.choice(coll)
+        times = [Fraction(t) for t in s["times"]]
+        ht = [times[0] - 2, times[0] - 1, times[0]]
+        hv = [tr.dy(r2), tr.dy(r2), tr.dy(r2)]
+        s["history"] = [{v: {"times": [str(t) for t in ht], "values": [str(x) for x in hv]}} for _ in range(s["ensemble_size"])]
+        res = {}
+        for nom in (1, r2.choice([10, 250, Fraction(1, 4)])):
+            sp = json.loads(json.dumps(s))
+            sp["nominals"] = {v: str(nom)}
+            p = problems.make_base(sp)()
+            p.transcribe()
+            nx = p.solver_input.shape[0]
+            Xp = [float(Fraction(random.Random(9).randint(-12, 12), 4)) for _ in range(nx)]        # physical values
+            f = ca.Function("i", [p.solver_input], [p.state_vector(v, 0)])
+            mine = {int(round(float(x))) for x in np.array(f(ca.DM(list(range(nx))))).ravel()}
+            X = ca.DM([x / float(nom) if i in mine else x for i, x in enumerate(Xp)])
+            a, b = float(ht[0]), float(times[-1])
+            ev = lambda e: [float(x) for x in np.array(ca.Function("f", [p.solver_input], [e])(X)).ravel()]  # noqa: E731
+            res[str(nom)] = {"knots": ev(p.states_in(v, a, b, 0)), "integral": ev(p.integral(v, a, b, 0))[0]}
+        ctx.count("history_window_cases")
+        ctx.case_done(core.fingerprint(["history-window", v in s["states"], len(times)]), True)
+        (n1, r1), (n2, r2_) = list(res.items())
+        want = [float(x) for x in hv[:2]]
+        if any(abs(g - w) > 1e-9 * (1 + abs(w)) for r in (r1, r2_) for g, w in zip(r["knots"][:2], want)) or \
+                abs(r1["integral"] - r2_["integral"]) > 1e-9 * (1 + abs(r1["integral"])):
+            ctx.violation("nominals/history-window", {"spec": s, "variable": v, "history": [str(x) for x in hv], "results": res},
+                          what="states_in / integral of %s from before t0: history knots %s / %s (stored %s), integrals %r / %r for nominals %s / %s" % (
+                              v, r1["knots"][:2], r2_["knots"][:2], want, r1["integral"], r2_["integral"], n1, n2))
+
+
+SIM_EXTRA_MODEL = """model SEB
+  input Real u0;
+  Real x(start=8.0);
+equation
+  der(x) = (u0 - 0.1 * x) / 3600.0;
+end SEB;
+"""
+
+
+def run_sim_extra(nominal):
+    import logging
+    import shutil
+    import tempfile
+    import warnings
+    warnings.filterwarnings("ignore")
+    logging.disable(logging.CRITICAL)
+    from rtctools.simulation.csv_mixin import CSVMixin
+    from rtctools.simulation.simulation_problem import SimulationProblem, Variable
+    from .. import mo
+    from .c09 import T0
+    base = tempfile.mkdtemp(prefix="verif_c08_")
+    try:
+        mdl, inp, outp = (os.path.join(base, d) for d in ("model", "input", "output"))
+        for d in (mdl, inp, outp):
+            os.makedirs(d)
+        with open(os.path.join(mdl, "SEB.mo"), "w") as fh:
+            fh.write(SIM_EXTRA_MODEL)
+        mo.write_timeseries_csv(os.path.join(inp, "timeseries_import.csv"), T0, 3600, {"u0": ["1", "1", "1"]})
+
+        class S(CSVMixin, SimulationProblem):
+            def compiler_options(self):
+                o = super().compiler_options()
+                o["cache"] = False
+                return o
+
+            def extra_variables(self):
+                return [Variable("z", min=0.0, max=5.0, nominal=nominal)]
+
+            def extra_equations(self):
+                v = self.get_variables()
+                return [v["z"] - v["x"]]
+        p = S(model_folder=mdl, model_name="SEB", input_folder=inp, output_folder=outp)
+        p.pre()
+        p.initialize()
+        return {"x": float(p.get_var("x")), "z": float(p.get_var("z"))}
+    except Exception as e:  # noqa: BLE001
+        return {"error": "%s: %s" % (type(e).__name__, str(e)[:200])}
+    finally:
+        shutil.rmtree(base, ignore_errors=True)
+
+
+def sim_extra_bounds(ctx):
+    """a user variable of the simulator with bounds and a nominal (z = x, 0 <= z <= 5, x starts at 8): the bound
+    acts on the physical value, the initial state is the same for every nominal"""
+    from concurrent.futures import ProcessPoolExecutor
+    noms = [1.0, 10.0, 100.0, 0.05]
+    with ProcessPoolExecutor(max_workers=4) as ex:
+        res = list(ex.map(run_sim_extra, noms))
+    ctx.count("sim_extra_bound_models", len(noms))
+    ctx.case_done(core.fingerprint(["sim-extra-bounds"]), True)
+    if any("error" in r for r in res):
+        ctx.count("sim_extra_bound_unsolved")
+        return
+    if any(abs(r["x"] - res[0]["x"]) > 1e-6 or r["z"] > 5 + 1e-6 or r["z"] < -1e-6 for r in res):
+        ctx.violation("nominals/sim-extra-variable-bounds", {"nominals": noms, "initial_states": res},
+                      what="initial state under 0 <= z <= 5 for nominals %s: %s" % (noms, [(round(r["x"], 4), round(r["z"], 4)) for r in res]))
+
+
 def sim_nominal_cases(ctx):
     """simulation variables are read and written in physical units: a user variable with its own nominal next to
     a delay buffer of several steps, set_var / get_var round trips"""
@@ -265,3 +378,5 @@ def run(ctx):  # noqa: F811
     if not os.environ.get("VERIF_REPLAY"):
         accessor_scaling(ctx)
         sim_nominal_cases(ctx)
+        history_windows(ctx)
+        sim_extra_bounds(ctx)
